@@ -1,4 +1,5 @@
 import PyCraft.Props.C06
+import PyCraft.Props.C06Dispatch
 #print axioms PyCraft.C06.checkTotal_ok
 #print axioms PyCraft.C06.checkInj_ok
 #print axioms PyCraft.C06.ids_total_supported
@@ -6,3 +7,22 @@ import PyCraft.Props.C06
 #print axioms PyCraft.C06.ids_injective_elsewhere
 #print axioms PyCraft.C06.known_collision_real
 #print axioms PyCraft.C06.dispatch_unique
+#print axioms PyCraft.C06Dispatch.dispatch_sound
+#print axioms PyCraft.C06Dispatch.dispatch_defined
+#print axioms PyCraft.C06Dispatch.dispatch_unique_at
+#print axioms PyCraft.C06Dispatch.dispatch_order_independent_at
+#print axioms PyCraft.C06Dispatch.dispatch_any_winner
+#print axioms PyCraft.C06Dispatch.dispatch_order_dependent
+#print axioms PyCraft.C06Dispatch.comprehension_spec
+#print axioms PyCraft.C06Dispatch.tables_names
+#print axioms PyCraft.C06Dispatch.tables_versions
+#print axioms PyCraft.C06Dispatch.tables_supported
+#print axioms PyCraft.C06Dispatch.supported_row_iff
+#print axioms PyCraft.C06Dispatch.domain_complete
+#print axioms PyCraft.C06Dispatch.collisions_exact
+#print axioms PyCraft.C06Dispatch.known_collisions_real
+#print axioms PyCraft.C06Dispatch.collision_keys_agree
+#print axioms PyCraft.C06Dispatch.dispatch_on_tables
+#print axioms PyCraft.C06Dispatch.reactor_binding
+#print axioms PyCraft.C06Dispatch.reactor_dicts
+#print axioms PyCraft.C06Dispatch.self_ids_agree
